@@ -447,8 +447,19 @@ func (r *Runner) assignVal(name string, prev expand.Variable, as *syntax.Assign,
 	if valType == "-A" {
 		amap := make(map[string]string, len(elems))
 		for _, elem := range elems {
-			k := r.literal(elem.Index.(*syntax.Word))
-			amap[k] = r.literal(elem.Value)
+			w, ok := elem.Index.(*syntax.Word)
+			if !ok {
+				// The parser reads keys as arithmetic expressions, so the
+				// original text of one like [1+2] or a missing key is gone.
+				if elem.Index == nil {
+					r.errf("%s: must use subscript when assigning associative array\n", name)
+				} else {
+					r.errf("%s: associative array keys which are not a single word must be quoted\n", name)
+				}
+				r.exit.code = 1
+				continue
+			}
+			amap[r.literal(w)] = r.literal(elem.Value)
 		}
 		if !as.Append {
 			prev.Kind = expand.Associative
